@@ -53,6 +53,16 @@ static sf_count_t vox_write_f (SF_PRIVATE *psf, const float *ptr, sf_count_t len
 static sf_count_t vox_write_d (SF_PRIVATE *psf, const double *ptr, sf_count_t len) ;
 
 static int vox_read_block (SF_PRIVATE *psf, IMA_OKI_ADPCM *pvox, short *ptr, int len) ;
+static int vox_write_block (SF_PRIVATE *psf, IMA_OKI_ADPCM *pvox, const short *ptr, int len) ;
+
+/* One code byte holds two samples. A call that ends on an odd sample keeps it here
+** for the next call (or for close) instead of padding or dropping it.
+*/
+typedef struct
+{	IMA_OKI_ADPCM	oki ;	/* Must be first : codec_data is used as an IMA_OKI_ADPCM pointer. */
+	int				have_spare ;
+	short			spare ;
+} VOX_PRIVATE ;
 
 /*------------------------------------------------------------------------------
 */
@@ -61,6 +71,18 @@ static int
 codec_close (SF_PRIVATE * psf)
 {
 	IMA_OKI_ADPCM * p = (IMA_OKI_ADPCM *) psf->codec_data ;
+	VOX_PRIVATE * pv = (VOX_PRIVATE *) psf->codec_data ;
+
+	if (psf->file.mode == SFM_WRITE && pv->have_spare)
+	{	/* Flush the last odd sample (the encoder pads it with a zero). */
+		short last = pv->spare ;
+
+		pv->have_spare = 0 ;
+		p->pcm [0] = last ;
+		p->pcm_count = 1 ;
+		ima_oki_adpcm_encode_block (p) ;
+		psf_fwrite (p->codes, 1, p->code_count, psf) ;
+		} ;
 
 	if (p->errors)
 		psf_log_printf (psf, "*** Warning : ADPCM state errors: %d\n", p->errors) ;
@@ -77,11 +99,11 @@ vox_adpcm_init (SF_PRIVATE *psf)
 	if (psf->file.mode == SFM_WRITE && psf->sf.channels != 1)
 		return SFE_CHANNEL_COUNT ;
 
-	if ((pvox = malloc (sizeof (IMA_OKI_ADPCM))) == NULL)
+	if ((pvox = malloc (sizeof (VOX_PRIVATE))) == NULL)
 		return SFE_MALLOC_FAILED ;
 
 	psf->codec_data = (void*) pvox ;
-	memset (pvox, 0, sizeof (IMA_OKI_ADPCM)) ;
+	memset (pvox, 0, sizeof (VOX_PRIVATE)) ;
 
 	if (psf->file.mode == SFM_WRITE)
 	{	psf->write_short	= vox_write_s ;
@@ -123,7 +145,13 @@ vox_adpcm_init (SF_PRIVATE *psf)
 
 static int
 vox_read_block (SF_PRIVATE *psf, IMA_OKI_ADPCM *pvox, short *ptr, int len)
-{	int	indx = 0, k ;
+{	VOX_PRIVATE *pv = (VOX_PRIVATE *) pvox ;
+	int	indx = 0, k ;
+
+	if (pv->have_spare && len > 0)
+	{	ptr [indx++] = pv->spare ;
+		pv->have_spare = 0 ;
+		} ;
 
 	while (indx < len)
 	{	pvox->code_count = (len - indx > IMA_OKI_ADPCM_PCM_LEN) ? IMA_OKI_ADPCM_CODE_LEN : (len - indx + 1) / 2 ;
@@ -142,6 +170,10 @@ vox_read_block (SF_PRIVATE *psf, IMA_OKI_ADPCM *pvox, short *ptr, int len)
 		/* Two samples per code byte : for an odd request do not hand out more than was asked for. */
 		k = (pvox->pcm_count > len - indx) ? len - indx : pvox->pcm_count ;
 		memcpy (&(ptr [indx]), pvox->pcm, k * sizeof (short)) ;
+		if (pvox->pcm_count > k)
+		{	pv->spare = pvox->pcm [k] ;
+			pv->have_spare = 1 ;
+			} ;
 		indx += k ;
 		} ;
 
@@ -268,21 +300,36 @@ vox_read_d (SF_PRIVATE *psf, double *ptr, sf_count_t len)
 
 static int
 vox_write_block (SF_PRIVATE *psf, IMA_OKI_ADPCM *pvox, const short *ptr, int len)
-{	int	indx = 0, k ;
+{	VOX_PRIVATE *pv = (VOX_PRIVATE *) pvox ;
+	int	indx = 0, k ;
 
 	while (indx < len)
-	{	int count = (len - indx > IMA_OKI_ADPCM_PCM_LEN) ? IMA_OKI_ADPCM_PCM_LEN : len - indx ;
+	{	int count, n = 0 ;
 
-		pvox->pcm_count = count ;
-		memcpy (pvox->pcm, &(ptr [indx]), pvox->pcm_count * sizeof (short)) ;
+		if (pv->have_spare)
+		{	pvox->pcm [n++] = pv->spare ;
+			pv->have_spare = 0 ;
+			} ;
 
-		/* The encoder pads an odd block with a zero sample and counts it : that is not one of the caller's. */
+		count = (len - indx > IMA_OKI_ADPCM_PCM_LEN - n) ? IMA_OKI_ADPCM_PCM_LEN - n : len - indx ;
+		memcpy (&(pvox->pcm [n]), &(ptr [indx]), count * sizeof (short)) ;
+		n += count ;
+		indx += count ;
+
+		/* An odd sample waits for its partner (next call) or for close. */
+		if (n & 1)
+		{	pv->spare = pvox->pcm [--n] ;
+			pv->have_spare = 1 ;
+			} ;
+
+		if (n == 0)
+			continue ;
+
+		pvox->pcm_count = n ;
 		ima_oki_adpcm_encode_block (pvox) ;
 
 		if ((k = (int) psf_fwrite (pvox->codes, 1, pvox->code_count, psf)) != pvox->code_count)
 			psf_log_printf (psf, "*** Warning : short write (%d != %d).\n", k, pvox->code_count) ;
-
-		indx += count ;
 		} ;
 
 	return indx ;
